@@ -5,7 +5,9 @@ programs are emitted by TLC with their site counts:
   * MC_Annot: SyltGen's pairwise-nesting programs,
   * MC_AnnotFam: the annotation-type families of SyltAnnotFam (G: generic / structured nominal types at two
     instantiations, S: generic function signatures, F: function-typed variable definitions, L: annotations naming
-    types that are declared later in the file, in every order, M: qualified type names in multi-file projects).
+    types that are declared later in the file, in every order, M: qualified type names in multi-file projects),
+  * SyltAnnotOrd (family O, emitted by MC_AnnotFam too): positional type arguments - generic blobs / enums with 2-3 type
+    variables in every declaration and mention order, applied to every tuple of argument types, at every site and nested.
 The harness compiles every erasure variant of every program; MC_AnnotVal checks the recorded results: the
 record must cover the spec's mask universe (Assert: a tool error otherwise), every variant must be accepted and all
 variants of one program must have the same Lua digest.
@@ -32,7 +34,13 @@ M_ROUTES = {"one", "alias", "chain", "chainin", "chainas", "mixed", "reexp", "fr
             "pathas", "rooted", "srel", "sroot", "schain", "sfolder"}
 M_FORMS = {"color", "variant", "pt", "boxbare", "boxapp", "boxlit", "listcolor", "tup", "boxcolor"}
 M_HOSTS = {"main", "mid", "sub"}
-FAMS = "PGSFLM"
+O_KINDS = {"blob", "enum"}
+O_NESTS = {"flat", "list", "box", "self", "field", "gfield", "payload", "sigF", "sigL"}
+O_ORDERS = {"AB", "BA", "ABC", "ACB", "BAC", "BCA", "CAB", "CBA"}
+O_SITES = G_SITES | {"gsig", "lsig"}
+O_PLACES = {"same12", "same21"}
+O_VALUES = {"lit", "all", "1", "2", "3"}
+FAMS = "PGSFLMO"
 # records per validation run (bounds TLC's memory in the thorough tier; the chunks are independent)
 CHUNK = 3000
 
@@ -78,7 +86,8 @@ def run(ctx):
         vlib.require_tlc_ok(r, "MC_Annot emit")
         # universe 2: annotation-type families (quick: family S complete, seeded random subsets of G and F)
         rf = vlib.tlc("MC_AnnotFam", wd=wd, env={"GSAMPLE": 700 if quick else 0, "FSAMPLE": 120 if quick else 0,
-                                                 "LSAMPLE": 300 if quick else 0, "MSAMPLE": 300 if quick else 0},
+                                                 "LSAMPLE": 300 if quick else 0, "MSAMPLE": 300 if quick else 0,
+                                                 "OSAMPLE": 400 if quick else 0},
                       timeout=tmo, xmx="12g", extra=tseed)
         vlib.require_tlc_ok(rf, "MC_AnnotFam emit")
         seen = set()
@@ -97,8 +106,8 @@ def run(ctx):
             cases = rnd.sample(p, min(len(p), 600)) + [c for c in cases if family(c) != "P"]
             nfam = {f: sum(1 for c in cases if family(c) == f) for f in FAMS}
         # vacuity guards: enough programs of every family, every dimension of family G exercised
-        need = ({"P": 500, "G": 600, "S": 130, "F": 100, "L": 280, "M": 280} if quick
-                else {"P": 10000, "G": 8000, "S": 130, "F": 400, "L": 2800, "M": 3100})
+        need = ({"P": 500, "G": 600, "S": 130, "F": 100, "L": 280, "M": 280, "O": 380} if quick
+                else {"P": 10000, "G": 8000, "S": 130, "F": 400, "L": 2800, "M": 3100, "O": 8000})
         for f in FAMS:
             if nfam[f] < need[f]:
                 vlib.tool_error("vacuity: only %d programs of family %s (need %d)" % (nfam[f], f, need[f]))
@@ -119,6 +128,9 @@ def run(ctx):
                    [("mention positions", L_MENTIONS), ("annotation forms", L_FORMS), ("definition kinds", L_KINDS), ("orders", L_ORDERS)])
         dims_guard("M", lambda i: i["o"].split(":")[1:] + [i["i"], i["h"]],
                    [("routes", M_ROUTES), ("forms", M_FORMS), ("sites", G_SITES), ("hosts", M_HOSTS)])
+        dims_guard("O", lambda i: i["o"].split(":")[1:] + i["i"].split(":")[:2] + i["h"].split(":"),
+                   [("kinds", O_KINDS), ("nests", O_NESTS), ("declaration orders", O_ORDERS), ("sites", O_SITES),
+                    ("mention orders", O_ORDERS), ("placements", O_PLACES), ("value forms", O_VALUES)])
 
     cf = os.path.join(wd, "cases.ndjson")
     tf = os.path.join(wd, "trace.ndjson")
@@ -179,7 +191,8 @@ def run(ctx):
            exhaustive=(tier == "thorough"),
            rule="P: programs of SyltGen's pairwise-nesting universe (quick: seeded sample of 600); G / S / F / L / M: the annotation-type "
                 "families of SyltAnnotFam (quick: all of S, seeded samples of 700 of G, 120 of F, 300 of L, 300 of M; every value of every "
-                "dimension of G, L and M must occur); per program every mask of SyltAnnot!Masks (all subsets of the program-specific sites "
+                "dimension of G, L and M must occur); O: positional type arguments, SyltAnnotOrd (quick: seeded sample of 400; every kind, "
+                "nest, declaration order, mention order, site, placement and value form must occur); per program every mask of SyltAnnot!Masks (all subsets of the program-specific sites "
                 "when <= %d - always the case in the families -, plus all-on/all-off/single-off/single-on/prefix-off over all sites); "
                 "a program is non-trivial when it has >= 1 site of its own (asserted by TLC for the families; all P have >= 20)" % maxexh,
            samples=samples,
